@@ -169,13 +169,17 @@ pub enum Ran {
 /// Apply a compiled function to Data-encoded arguments and evaluate (PlutusV3 defaults, as
 /// `aiken check` does).
 pub fn run_program(program: &Program<Name>, args: &[RData]) -> Ran {
+    run_program_with(program, args, huge())
+}
+
+pub fn run_program_with(program: &Program<Name>, args: &[RData], budget: ExBudget) -> Ran {
     let mut p = program.clone();
     for a in args {
         p = p.apply_data(rterm::to_impl_data(a));
     }
     match guarded(move || {
         let d: Program<DeBruijn> = p.to_debruijn().map_err(|e| format!("free variable in compiler output: {e}"))?;
-        let r = d.eval(huge());
+        let r = d.eval(budget);
         Ok::<_, String>(r.result.map_err(|e| h_uplc::common::error_kind(&e)))
     }) {
         Ok(Ok(Ok(t))) => Ran::Value(t),
